@@ -39,6 +39,9 @@
 
 #include "art_common.hpp"
 #include "common.hpp"
+#ifndef NDEBUG
+#include "test_heap.hpp"
+#endif
 
 using vh::Bytes;
 using vh::Rng;
@@ -338,6 +341,7 @@ static const char* const kModeName[] = {"fresh", "reset", "grown"};
 
 // Encode every key of the batch with the real encoder in the given mode,
 // decode it with the real decoder, write one batch line.
+static std::unique_ptr<unodb::key_encoder> g_preset_encoder;
 static void emit_batch(const char* stratum, const Schema& sch, std::vector<Key> keys, Mode mode, bool pairwise,
                        bool sorted = true, long weight = 0) {
   if (keys.empty()) return;
@@ -355,7 +359,9 @@ static void emit_batch(const char* stratum, const Schema& sch, std::vector<Key> 
   }
   o += "],\"items\":[";
   std::unique_ptr<unodb::key_encoder> shared;
-  if (mode != FRESH) {
+  if (mode != FRESH && g_preset_encoder) {
+    shared = std::move(g_preset_encoder);  // an encoder with a history of its own (stratum grow-fault)
+  } else if (mode != FRESH) {
     shared = std::make_unique<unodb::key_encoder>();
     if (mode == GROWN) {  // make it grow its buffer first: 300..4000 bytes
       const std::size_t n = 40 + (static_cast<std::size_t>(g_out.batch_id) * 37) % 460;
@@ -800,6 +806,43 @@ static void run_plan(const Plan& P) {
     }
     emit_batch("grow", sch, std::move(keys), static_cast<Mode>(rep % 3), false, true, 600);
   }
+#ifndef NDEBUG
+  // --- an encoder whose buffer growth FAILED once (allocation failure injected at the append that crosses the
+  //     internal buffer), reused after reset(): it must still yield the bytes of a fresh encoder (seed c12c:
+  //     the capacity was recorded before the allocation)
+  for (std::size_t fill = 246; fill <= 256; ++fill) {
+    for (Ty last : {U8, U16, U64, F64}) {
+      const std::size_t lsz = last == U8 ? 1 : last == U16 ? 2 : 8;
+      if (fill + lsz <= 256) continue;  // no growth needed
+      auto enc = std::make_unique<unodb::key_encoder>();
+      for (std::size_t i = 0; i < fill; ++i) enc->encode(static_cast<std::uint8_t>(i * 7 + fill));
+      bool threw = false;
+      unodb::test::allocation_failure_injector::fail_on_nth_allocation(1);
+      try {
+        if (last == U8) enc->encode(static_cast<std::uint8_t>(0x5A));
+        else if (last == U16) enc->encode(static_cast<std::uint16_t>(0x5A5A));
+        else if (last == U64) enc->encode(static_cast<std::uint64_t>(0x5A5A5A5A5A5A5A5AULL));
+        else enc->encode(1.5);
+      } catch (const std::bad_alloc&) {
+        threw = true;
+      }
+      unodb::test::allocation_failure_injector::reset();
+      if (!threw) continue;
+      // reused after the failure: keys just above the internal buffer, and longer ones
+      Schema sch;
+      for (std::size_t i = 0; i < 257 + (fill % 3) * 130; ++i) sch.push_back(U8);
+      sch.push_back(last);
+      std::vector<Key> keys;
+      for (int i = 0; i < 2; ++i) {
+        Key k;
+        for (Ty t : sch) k.push_back(rand_val(t, rng, {}));
+        keys.push_back(std::move(k));
+      }
+      g_preset_encoder = std::move(enc);
+      emit_batch("grow-fault", sch, std::move(keys), RESET, false, true, 300);
+    }
+  }
+#endif
   // --- optional: the boundary of C15's domain found by TLC (KeyCodecMC
   //     "textizp"): t and t ++ 00 ++ BE16(maxlen - |t|) ++ 01
   if (P.izp) {
